@@ -81,6 +81,8 @@ def run(ctx):
                                    transposed=False, invalid=False)),
                     ('ugrid', dict(w=2, h=2, supplied=set(), edge_dim_declared=True, phantom_edge_dim=True, invalid=False)),
                     ('ugrid', dict(w=2, h=3, supplied={'face_face'}, mesh_var_dim=True, invalid=False)),
+                    # a curvilinear grid whose longitude is stored (x, y) and whose latitude is stored (y, x)
+                    ('cf2d', dict(ny=3, nx=5, bounds=True, holes='none', invalid=False, lon_transposed=True)),
                     ('cf1d', dict(ny=3, nx=12, global_lon=True, bounds=False)), ('cf1d', dict(ny=2, nx=8, global_lon=True, bounds=True))]:
         datasets.append(gen.any_dataset(rng, fam, **kw))
     while len(datasets) < n_ds:
